@@ -183,8 +183,54 @@ def corpus(ctx):
         pipeline_case(ctx, p, r, E.mk_cfg("MATCHED", ["IOU", "DSC"]), "corpus.one-side-empty")
 
 
+def grouped_cases(ctx, n):
+    """class groups (a single-instance group listed before a plain group) + decision threshold above the matching
+    threshold: in every group an instance failing the decision threshold is fp and fn, never tp"""
+    rng = ctx.rng
+    for k in range(n):
+        W = 14
+        ref = np.zeros((4, W), np.uint8)
+        pred = np.zeros((4, W), np.uint8)
+        ref[0, 0:4] = 1
+        pred[0, 0:rng.randint(2, 4)] = 1
+        ref[2, 0:6] = 2
+        pred[2, rng.randint(2, 4):8] = 2          # IoU between the two thresholds for most offsets
+        ref[2, 9:13] = 3
+        pred[2, 9:13] = 3
+        groups = [{"name": "organ", "labels": [1], "merge": False, "single": True},
+                  {"name": "lesions", "labels": [2, 3], "merge": False, "single": False}]
+        if rng.random() < 0.3:
+            groups.reverse()
+        it = rng.choice(["UNMATCHED", "SEMANTIC"])
+        cfg = E.mk_cfg(it, ["IOU", "DSC"], matcher=E.naive("IOU", (1, 5)), decision=["IOU", {"q": [1, 2]}])
+        ev = None
+        with quiet():
+            ev = impl.mk_evaluator(cfg, groups=groups)
+        for call in range(2):
+            res = E.run_impl(cfg, pred, ref, groups=groups, evaluator=ev)
+            inp = {"shape": [4, W], "dtype": "uint8", "pred": gen.arr_json(pred), "ref": gen.arr_json(ref), "cfg": cfg, "groups": groups,
+                   "call": call, "src": f"grouped{k}"}
+            ctx.case(inp, True)
+            ctx.count("grouped_with_single_instance")
+            if isinstance(res, str):
+                ctx.violation(f"grouped evaluation raised {res}", inp, key={"kind": "raises"})
+                break
+            s = res["lesions"]
+            p_g = np.where(np.isin(pred, [2, 3]), pred, 0).astype(np.uint8)
+            r_g = np.where(np.isin(ref, [2, 3]), ref, 0).astype(np.uint8)
+            spec = oracle.spec_pipeline(p_g, r_g, it, "scipy", ("IOU", (1, 5), False), ("IOU", (1, 2)), ["IOU", "DSC"])
+            fails = E.check_bookkeeping(s, ["IOU", "DSC"])
+            if spec is not None and s["tp"] != spec["tp"]:
+                fails.append(f"group 'lesions' (evaluate call {call + 1}): tp={s['tp']} but {spec['tp']} instance(s) pass the decision threshold 1/2 "
+                             f"(IoU values {[float(x) for x in spec['lists']['IOU']]} pass)")
+            if fails:
+                ctx.violation("result bookkeeping inconsistent: " + fails[0], inp, impl=s, key={"kind": "bookkeeping"})
+                break
+
+
 def run(ctx):
     corpus(ctx)
+    grouped_cases(ctx, ctx.scale(10, 80))
     rng = ctx.rng
     for i in range(ctx.scale(700, 7000)):
         pred, ref = gen.pair(rng, hi=7, max_obj=4)
